@@ -3,7 +3,7 @@
 From Coq Require Import List NArith Bool String Permutation.
 From Seccomp Require Import Result Policy Tables Text TextProofs.
 From Gen Require Import GenTables GenArches.
-From Oracle Require Import OracleTables OracleConsts.
+From Oracle Require Import OracleTables OracleConsts OracleAudit.
 Import ListNotations.
 Open Scope N_scope.
 
@@ -137,6 +137,22 @@ Theorem C12_audit_ids :
   forallb (fun e => (ai_mask (snd e) =? 0) || String.eqb (fst e) "X32") all_infos = true.
 Proof. repeat split; reflexivity. Qed.
 Print Assumptions C12_audit_ids.
+
+(** EVERY audit-architecture constant the package declares (also those of architectures without a table: sparc64, sh,
+    parisc, ia64 ...) - regenerated from arch/zarches.go as the Go type checker evaluates it - is the value the kernel's
+    UAPI header gives the AUDIT_ARCH_ constant of the same name (vendored in OracleAudit.v), and none is unknown to the
+    kernel; the table of names has an entry for each of them *)
+Theorem C12_every_audit_constant_is_the_kernels :
+  forallb audit_const_ok audit_consts = true /\
+  forallb (fun e => existsb (fun ne => fst ne =? snd e) audit_names) audit_consts = true /\
+  (forall name v, In (name, v) audit_consts -> kernel_value_of_go name = Some v).
+Proof.
+  assert (H: forallb audit_const_ok audit_consts = true) by (vm_compute; reflexivity).
+  split; [exact H|]. split; [vm_compute; reflexivity|].
+  intros name v Hin. rewrite forallb_forall in H. specialize (H _ Hin). unfold audit_const_ok in H. cbn [fst snd] in H.
+  destruct (kernel_value_of_go name) as [w|]; [|discriminate]. apply N.eqb_eq in H. now subst.
+Qed.
+Print Assumptions C12_every_audit_constant_is_the_kernels.
 
 (** aliases: any spelling with the same lower-case form resolves alike; the documented pairs share a record *)
 Theorem C12_alias_case_insensitive : forall goarch s s',
